@@ -11,7 +11,7 @@ issuer id, version, public key, validity instants and every signer behaviour.
 
 The validity period: `Ndn.Cert.Issue.instants` / `validity` (derive_cert, sign_req, self_sign over the calendar
 model `Ndn.Calendar`: CPython's proleptic Gregorian ordinal arithmetic, `datetime + timedelta`, `replace(year=…)`,
-`astimezone(UTC)`), `fmtInstant` (`strftime('%Y%m%dT%H%M%S')`, years 1000..9999).  The tzinfo of an aware start
+`astimezone(UTC)`), `fmtInstant` (`_fmt_time`: year zero-padded to four digits + `strftime('%m%dT%H%M%S')`, years 0001..9999).  The tzinfo of an aware start
 time is any function from wall-clock readings (and `fold`) to UTC offsets (`Calendar.Zone`): fixed-offset zones and
 zones whose offset changes (daylight saving) alike.
 -/
@@ -203,10 +203,19 @@ theorem fmtInstant_abs_inj (s t : Instant) (hs : s.valid) (ht : t.valid) (e : fm
   obtain ⟨h1, h2⟩ := fmtInstant_inj s t hs ht e
   unfold Instant.abs; rw [h1, h2]
 
-/-- the years 1000..9999, where `strftime('%Y…')` prints the four digits of `fmtInstant`, are the ordinals from
-    364878 (= 1000-01-01) on -/
-theorem fmt_domain (t : Instant) (ht : t.valid) : 1000 ≤ (fields t).1 ↔ minFmtOrdinal ≤ t.ord :=
-  year_ge_1000_iff t.ord ht.1
+/-- **fmtInstant_form.** For every instant — all years 0001..9999, no restriction — the text is the 15-octet
+    `YYYYMMDDThhmmss`: fifteen octets, the ninth is `T`, all others are decimal digits (the year zero-padded to
+    four digits). -/
+theorem fmtInstant_form (t : Instant) :
+    (fmtInstant t).length = 15 ∧ (fmtInstant t)[8]? = some 84 ∧
+    ∀ b ∈ fmtInstant t, b = 84 ∨ (48 ≤ b.toNat ∧ b.toNat ≤ 57) := by
+  refine ⟨formatTime_length _ _ _ _ _ _, by simp [fmtInstant, formatTime, fmt4, fmt2], fun b hb => ?_⟩
+  simp only [fmtInstant, formatTime, fmt4, fmt2, List.cons_append, List.nil_append, List.mem_cons, List.not_mem_nil,
+    or_false] at hb
+  rcases hb with h | h | h | h | h | h | h | h | h | h | h | h | h | h | h <;>
+    first
+    | (left; exact h)
+    | (right; rw [h, digit_toNat]; omega)
 
 theorem utcPair_ok_iff (a : Instant) (ao : Option Int) (b : Instant) (bo : Option Int) (s e : Instant) :
     utcPair a ao b bo = .ok (s, e) ↔ toUtc a ao = .ok s ∧ toUtc b bo = .ok e := by
@@ -542,6 +551,8 @@ deriving instance DecidableEq for Except
 example : ymd2ord 2024 2 29 = 738945 ∧ ord2ymd 738945 = (2024, 2, 29) := by decide +kernel
 example : ord2ymd maxOrdinal = (9999, 12, 31) ∧ ord2ymd 1 = (1, 1, 1) := by decide +kernel
 example : fmtInstant epoch = [49, 57, 55, 48, 48, 49, 48, 49, 84, 48, 48, 48, 48, 48, 48] := by decide +kernel
+-- year 5: the year is written with four digits (0005-01-02T03:04:05)
+example : fmtInstant ⟨ymd2ord 5 1 2, 11045, 0⟩ = "00050102T030405".toUTF8.toList := by decide +kernel
 -- 2024-12-31T23:59:59 + 1 s = 2025-01-01T00:00:00; 23:30 at UTC+5:45 is 17:45 UTC; an hour before day 1 overflows
 example : addSeconds ⟨739251, 86399, 7⟩ 1 = .ok ⟨739252, 0, 7⟩ := by rfl
 example : toUtc ⟨739251, 84600, 0⟩ (some 20700) = .ok ⟨739251, 63900, 0⟩ := by rfl
